@@ -23,6 +23,8 @@ def runSteps (env : Env) : List Step → TxSt → TxSt × Res
     | .ok => runSteps env rest r.1
     | .err e => if swallow then runSteps env rest r.1 else (r.1, .err e)
   | .fail tag :: _, st => (st.raise (.caller tag), .err (.caller tag))
+  -- first execution of the body (a later execution runs `laterBody`, which no longer contains the step)
+  | .fail1 tag :: _, st => (st.raise (.caller tag), .err (.caller tag))
   | .addCommit tag :: rest, st =>
     runSteps env rest { st with ctx := { st.ctx with commitActions := st.ctx.commitActions ++ [tag] } }
   | .addPre tag fails :: rest, st =>
@@ -105,16 +107,22 @@ def dbUpdate (env : Env) (db : Db) (ctx : Ctx) (body : List Step) : TxOut :=
   | .ok => commit env a 1 [] [] []
   | .err e => rollback db a e 1 [] [] []
 
-/-- DbImpl.Batch (one caller): a failing function is rolled back and run again alone; the context
-    keeps whatever the first run registered on it -/
+/-- the body as it behaves when the function is executed again: the "first time only" failures are spent -/
+def laterBody (body : List Step) : List Step :=
+  body.filter fun s => match s with | .fail1 _ => false | _ => true
+
+/-- DbImpl.Batch (one caller): a failing function is rolled back and run again alone (in a fresh bbolt
+    transaction: setTx registers handleCommit on it again); the context keeps whatever the first run
+    registered on it; whatever depended on "first time" (Step.fail1, Env.once) no longer strikes, so the
+    second run may well commit -/
 def dbBatch (env : Env) (db : Db) (ctx : Ctx) (body : List Step) : TxOut :=
   let a := attempt env true db ctx body
   match a.res with
   | .ok => commit env a 1 [] [] []
   | .err _ =>
-    let b := attempt env true db a.st.ctx body
+    let b := attempt env.later true db a.st.ctx (laterBody body)
     match b.res with
-    | .ok => commit env b 2 a.st.preLog a.preRan a.st.raised
+    | .ok => commit env.later b 2 a.st.preLog a.preRan a.st.raised
     | .err e => rollback db b e 2 a.st.preLog a.preRan a.st.raised
 
 inductive Mode | update | batch
